@@ -43,6 +43,23 @@ class Failure:
         self.detail = detail
 
 
+def _consts_of(e):
+    """names of the uninterpreted constants occurring in a z3 expression (iterative, shared sub-terms visited once)"""
+    out, seen, stack = set(), set(), [e]
+    while stack:
+        x = stack.pop()
+        i = x.get_id()
+        if i in seen:
+            continue
+        seen.add(i)
+        if z3.is_const(x):
+            if x.decl().kind() == z3.Z3_OP_UNINTERPRETED:
+                out.add(x.decl().name())
+        else:
+            stack.extend(x.children())
+    return out
+
+
 def _key_of(r):
     return (tuple(sorted(r.n.items())), None if r.d is None else tuple(sorted(r.d.items())))
 
@@ -312,6 +329,35 @@ class SymCtx:
         S = self.S
         return self.sqrt_var(S.R(S._pconst(fr)))
 
+    def named_zero(self, r):
+        """opt-in (opts['named_zero_tests']): the test `r == 0` of a large polynomial denominator as `z == 0` for a fresh
+        variable z whose definition z == r is a side hypothesis, i.e. kept out of the branch context exactly like the
+        definitions of sqrt variables (over-approximates the feasible paths; obligations see the definition)"""
+        S = self.S
+        named = self.__dict__.setdefault('_named_zero', {})
+        k = _key_of(S.R(r.n))
+        b = named.get(k)
+        if b is None:
+            re, im = S.R(r.n).z3()
+            i = S.REG.var(f"den#{len(named)}.re", 'f')
+            zs = [(S.REG.z3v[i], re)]
+            if not S._is_real(r.n):
+                j = S.REG.var(f"den#{len(named)}.im", 'f')
+                zs.append((S.REG.z3v[j], im))
+            for zv, t in zs:
+                self.side.append(zv == t)
+            b = S._mkB(z3.And([zv == 0 for zv, _ in zs]))
+            named[k] = b
+        return b
+
+    def note_norm_parts(self, w, parts):
+        """remember the entries x_i under the square root of a 2-norm w = sqrt(sum |x_i|^2) (used by lazy_cmp for `w > 0`)"""
+        if getattr(w, 'poison', False) or w.d is not None or len(w.n) != 1 or any(p.poison for p in parts):
+            return
+        (m, c), = w.n.items()
+        if len(m) == 1 and m[0][1] == 1 and m[0][0] in getattr(self, '_sqrt_defs', {}):
+            self.__dict__.setdefault('_norm_parts', {})[m[0][0]] = list(parts)
+
     def _need_defs(self, r):
         """make sure definitional constraints of sqrt variables used in a branch formula are in the branch context"""
         defs = getattr(self, '_sqrt_defs', None)
@@ -324,9 +370,43 @@ class SymCtx:
                 self.solver.add(ent[1])
                 self._need_defs(ent[0])
 
+    def _log_cmp(self, a, b, op):
+        """`sum_i c_i log(x_i)  op  0` with integer c_i (no other terms) is decided exactly as
+        `prod_{c_i>0} x_i^c_i  op  prod_{c_i<0} x_i^-c_i` (x_i > 0): no uninterpreted function is left in the query"""
+        S = self.S
+        if not self._uf:
+            return None
+        d = a - b
+        if d.d is not None or not d.n:
+            return None
+        rev = getattr(self, '_uf_rev', None)
+        if rev is None or len(rev) != len(self._uf):
+            rev = {}
+            for (fn, _k), (x, v) in self._uf.items():
+                if fn == 'log':
+                    (m, _c), = v.n.items()
+                    rev[m[0][0]] = x
+            self._uf_rev = rev
+        pos, neg = S.R(S._pconst(1)), S.R(S._pconst(1))
+        for m, (cr, ci) in d.n.items():
+            if ci != 0 or len(m) != 1 or m[0][1] != 1 or m[0][0] not in rev:
+                return None
+            if cr != int(cr) or abs(cr) > 4:
+                return None
+            x = rev[m[0][0]]
+            for _ in range(abs(int(cr))):
+                if cr > 0:
+                    pos = pos * x
+                else:
+                    neg = neg * x
+        return self._cmp_terms(pos, neg, op)
+
     def lazy_cmp(self, a, b, op):
         """comparisons involving a pure sqrt variable and a constant are rewritten on the radicand"""
         S = self.S
+        lg = self._log_cmp(a, b, op)
+        if lg is not None:
+            return lg
         defs = getattr(self, '_sqrt_defs', None)
         if not defs:
             return None
@@ -344,6 +424,24 @@ class SymCtx:
             rad = defs[pa[0]][0]
             if c < 0:
                 return op(1, 0)
+            parts = getattr(self, '_norm_parts', {}).get(pa[0]) if c == 0 else None
+            if parts is not None:
+                # norm(x) vs 0 (DESIGN 2(v)): norm > 0 <=> some entry != 0 (no polynomial sum of squares in the query)
+                pos, zer = bool(op(1, 0)), bool(op(0, 0))
+                if pos == zer:
+                    return pos
+                nz = []
+                for p in parts:
+                    if p.is_const():
+                        if p.const() != 0:
+                            nz = None
+                            break
+                        continue
+                    self._need_defs(p)
+                    re, im = p.z3()
+                    nz.append(re != 0 if p.is_real() else z3.Or(re != 0, im != 0))
+                f = z3.BoolVal(True) if nz is None else (z3.Or(nz) if nz else z3.BoolVal(False))
+                return S._mkB(f if pos else z3.Not(f))
             return self._cmp_terms(rad * (pa[1] * pa[1]), S.R(S._pconst(c * c)), op)
         if pb is not None and a.is_const():
             c = S._const_val(a.n)[0]
@@ -566,6 +664,10 @@ class SymCtx:
                 d = S.R(d.n)
             if d.n and S.REG.sqrt_def:
                 d = S.R(S._clear_neg_sqrt(d.n))
+            if d.n and self.pc:
+                zv = self._zero_vars()
+                if zv:  # inputs the path condition fixes to 0 (`x == 0` conjuncts): their monomials vanish
+                    d = S.R({m: c for m, c in d.n.items() if not any(v in zv for v, _ in m)})
             if not d.n:
                 zero += 1
                 continue
@@ -597,7 +699,9 @@ class SymCtx:
             return True
         if self.opts.get('skip_repeated_violation') and label in self.stats.get('violated', ()):
             # opt-in: this obligation already has a solver-confirmed counterexample on an earlier path of this case; the
-            # (possibly expensive, possibly `unknown`) model search is not repeated.  Counted as not discharged.
+            # (possibly expensive, possibly `unknown`) model search is not repeated.  Counted as not discharged; recorded as a
+            # duplicate of the earlier failure (explore() drops duplicates) so that the path is not taken for a clean one.
+            self.failures.append(Failure(label, 'violation', None, 'repeated: counterexample found on an earlier path'))
             return False
         # (a) guided ground models: proposals confirmed by the solver
         free = not self.side
@@ -617,6 +721,47 @@ class SymCtx:
         for c in self.side:
             s.add(c)
         s.add(goal)
+        if self.opts.get('guided_with_side') and not free:
+            # opt-in (cases whose only side constraints are *definitions* of auxiliary variables: sqrt variables, named
+            # denominators): the proposed rational inputs are substituted into path condition, definitions and goal, so
+            # that what the solver has to confirm is a small triangular system in the auxiliary variables only
+            rnd = random.Random(self.seed + 12345)
+            core = z3.And([a for a in self.solver.assertions()] + [goal])
+            for attempt in range(self.opts.get('guided_tries', 12)):
+                subs, prop = [], {}
+                for i in S.REG.inputs:
+                    k = S.REG.kind[i]
+                    val = Fraction(rnd.randint(1, 40), rnd.choice([3, 4, 5, 7]))
+                    if k == 'r' and rnd.random() < 0.4:
+                        val = -val
+                    subs.append((S.REG.z3v[i], z3.RealVal(f"{val.numerator}/{val.denominator}")))
+                    prop[S.REG.names[i]] = f"{val.numerator}/{val.denominator}"
+                s2 = z3.Solver()
+                g0 = z3.simplify(z3.substitute(core, *subs))
+                if z3.is_false(g0):
+                    continue
+                s2.add(g0)
+                # only the definitions of auxiliary variables that the (substituted) goal / path condition still mentions,
+                # transitively; a definition of an unused auxiliary variable is always solvable and is left out
+                need = _consts_of(g0)
+                pend = [z3.simplify(z3.substitute(c, *subs)) for c in self.side]
+                pend = [(c, _consts_of(c)) for c in pend]
+                grew = True
+                while grew:
+                    grew = False
+                    for ent in list(pend):
+                        if not ent[1] or (ent[1] & need):
+                            s2.add(ent[0])
+                            need |= ent[1]
+                            pend.remove(ent)
+                            grew = True
+                r = self._check(solver=s2, timeout_ms=5000)
+                if r == z3.sat:
+                    m2 = s2.model()
+                    for name, v in self.int_inputs.items():
+                        prop[name] = str(m2.eval(v, model_completion=True))
+                    self._fail(label, 'violation', prop, f'{len(rest)} entries differ, e.g. {rest[0][0]}')
+                    return False
         if free:
             rnd = random.Random(self.seed + 12345)
             for attempt in range(self.opts.get('guided_tries', 12)):
@@ -671,6 +816,40 @@ class SymCtx:
 
     def Implies(self, a, b):
         return self.S._mkB(z3.Implies(self._bt(a), self._bt(b)))
+
+    def _zero_vars(self):
+        """ids of real symbols that a conjunct of the path condition literally fixes to 0 (`x == 0`, also inside
+        And(...) / Not(Or(Not ...))); used to normalise differences in prove_eq before they go to the solver"""
+        S = self.S
+        cache = getattr(self, '_zv_cache', None)
+        start, zv = (cache[0], cache[1]) if cache else (0, set())
+        if start == len(self.pc):
+            return zv
+
+        def is_zero(t):
+            return z3.is_rational_value(t) and t.numerator_as_long() == 0
+
+        def visit(f, neg):
+            k = f.decl().kind()
+            if k == z3.Z3_OP_NOT:
+                visit(f.arg(0), not neg)
+            elif (k == z3.Z3_OP_AND and not neg) or (k == z3.Z3_OP_OR and neg):
+                for a in f.children():
+                    visit(a, neg)
+            elif k == z3.Z3_OP_EQ and not neg:
+                a, b = f.arg(0), f.arg(1)
+                if is_zero(a):
+                    a, b = b, a
+                if is_zero(b) and z3.is_const(a) and a.decl().kind() == z3.Z3_OP_UNINTERPRETED:
+                    i = S.REG.by_name.get(a.decl().name())
+                    if i is not None:
+                        zv.add(i)
+
+        for f in self.pc[start:]:
+            if z3.is_bool(f):
+                visit(f, False)
+        self._zv_cache = (len(self.pc), zv)
+        return zv
 
     def reachable(self):
         """vacuity guard: the path condition at this point must be satisfiable"""
